@@ -61,15 +61,6 @@ def elStr : Option Element → String
   | some e => "n" ++ hex e.name ++ String.join (e.attrs.map fun a =>
       ";" ++ hex a.name ++ (match a.value with | some v => "=" ++ hex v | none => ""))
 
-mutual
-partial def treeStr : List Part → String
-  | [] => ""
-  | p :: ps => partStr p ++ treeStr ps
-partial def partStr : Part → String
-  | .text t => s!"T{t.bstart} "
-  | .element _ st en ch => s!"E{st.bstart},{en.bstart}( " ++ treeStr ch ++ ") "
-end
-
 def markerStr (m : Marker) : String := s!"{m.start}-{m.stop}:{optStr m.pair}"
 
 def rngs (l : List (Nat × Nat)) (sep : String) : String :=
@@ -101,7 +92,7 @@ def handle (r : Req) : String :=
       s!"{if t.kind = .element then "E" else "T"}:{t.start}:{t.stop}:{t.bstart}:{t.bstop}:{hex t.value}")
   | "elparse" =>
     "ok\t" ++ " ".intercalate ((tokenize r.src r.ds r.de).map fun t => elStr (elparse r.ds r.de t))
-  | "tree" => "ok\t" ++ treeStr (parseSource r.src r.ds r.de)
+  | "tree" => "ok\t" ++ Spec.treeString (parseSource r.src r.ds r.de)
   | "time" => "ok\t" ++ toString (timeIsRemoval r.cfg ⟨"tl".toList, attrsFor r "to"⟩)
   | "marker" => "ok\t" ++ toString (markerIsRemoval r.cfg ⟨"rm".toList, attrsFor r "name"⟩)
   | "trace" =>
